@@ -578,154 +578,194 @@ def check_buffer_discipline(run):
 
 
 def check_write_string(run):
-    """R06.5: the chunked copy loop appends exactly the bytes str[0..size) — decided by an affine analysis of one loop
-    round and of the tail, so it does not depend on how the round spells or orders its bookkeeping."""
+    """R06.5: the chunked copy appends exactly the bytes str[0..size).  Decided by an affine analysis (A13) of every
+    path through one loop iteration and through the code after the loop: what a round copies, how far source and
+    remainder move, that a continuing round flushes, that leaving the loop copies exactly what is left.  Branch conditions
+    and std::min are resolved by case splits over affine forms, so `while (m_avail < left) {..} <tail copy>` and
+    `for (;;) { n = min(m_avail, size - done); ..; if (done == size) break; flush; }` are the same to it."""
     from .. import affine
     from ..affine import Lin
     facts = run.facts
     f = facts.fn("CDNS::CdnsEncoder::write_string", rule="R06.5")
     body = ir.stmts(f["body"])
-    loops = [s for s in body if s.get("k") == "While"]
+    loops = [s for s in body if s.get("k") in ("While", "For", "Do")]
     if len(loops) != 1:
-        run.ob("R06.5", "write_string:shape", None, f, f["line"], "expected one while loop")
+        run.ob("R06.5", "write_string:shape", None, f, f["line"], "expected one copy loop at function level (found %d)" % len(loops))
+        run.floor("R06.5", 4, "write_string obligations")
         return
     lp = loops[0]
-    cu = unwrap(lp["cond"])
-    left_e = None
-    if isinstance(cu, dict) and cu.get("k") == "Bin" and cu.get("op") in ("<", "<=", ">", ">="):
-        l_is = is_member(cu["lhs"], "m_avail")
-        r_is = is_member(cu["rhs"], "m_avail")
-        if l_is and cu["op"] in ("<", "<="):
-            left_e = cu["rhs"]
-        elif r_is and cu["op"] in (">", ">="):
-            left_e = cu["lhs"]
-    ok = left_e is not None
-    c = cond(lp["cond"], None)
-    run.ob("R06.5", "write_string:loop-condition", ok, f, lp["l"],
-           "loops while the remainder does not fit (%s)" % show_f(c) if ok else "loop condition %s is not `m_avail < remaining`" % show_f(c))
-    if not ok:
-        return
+    i_lp = body.index(lp)
     AV, MP = "this.m_avail", "this.m_p"
+    size_p, str_p = "p:%s" % f["params"][1]["n"], "p:%s" % f["params"][0]["n"]
 
-    def interp(stmts_, env):
-        events = []
+    # the expression that stands for "what is left": the loop condition's partner of m_avail, else min's partner
+    rem_e = None
+    cu = unwrap(lp.get("cond")) if lp.get("cond") is not None else None
+    if isinstance(cu, dict) and cu.get("k") == "Bin" and cu.get("op") in ("<", "<=", ">", ">="):
+        if is_member(cu["lhs"], "m_avail"):
+            rem_e = cu["rhs"]
+        elif is_member(cu["rhs"], "m_avail"):
+            rem_e = cu["lhs"]
+    if rem_e is None:
+        for x in ir.walk(lp.get("body")):
+            if x.get("k") == "Call" and (callee_qn(x) or "").split("<")[0] == "std::min" and len(x.get("args", [])) == 2:
+                a0, a1 = x["args"]
+                if is_member(a0, "m_avail"):
+                    rem_e = a1
+                elif is_member(a1, "m_avail"):
+                    rem_e = a0
+    c = cond(lp["cond"], None) if lp.get("cond") is not None else ("T",)
+    ok = rem_e is not None
+    run.ob("R06.5", "write_string:loop-condition", ok, f, lp["l"],
+           "the loop is governed by the free space and the remainder (%s)" % show(rem_e) if ok else
+           "loop condition %s is not `m_avail < remaining` and no min(m_avail, remaining) bounds the chunk" % show_f(c))
+    if not ok:
+        run.floor("R06.5", 4, "write_string obligations")
+        return
 
-        def on_call(u, env):
-            nm = callee_name(u)
-            if u.get("k") == "Return":
-                events.append(("return", affine.ev(u["e"], env) if u.get("e") is not None else None, None, None, u))
-                return True
-            if nm == "memcpy" and len(u.get("args", [])) == 3:
-                a = u["args"]
-                events.append(("memcpy", affine.ev(a[0], env), affine.ev(a[1], env), affine.ev(a[2], env), u))
-                return True
-            if nm == "update_buffer" and (u.get("callee") or {}).get("cls") == ENC:
-                n = affine.ev(u["args"][0], env)
-                events.append(("update", n, None, None, u))
-                env[MP] = affine.ev({"k": "Member", "field": True, "n": "m_p", "base": {"k": "This"}}, env) + n
-                env[AV] = affine.ev({"k": "Member", "field": True, "n": "m_avail", "base": {"k": "This"}}, env) - n
-                return True
-            if nm == "flush_buffer" and (u.get("callee") or {}).get("cls") == ENC:
-                events.append(("flush", None, None, None, u))
-                env[MP] = Lin.sym("buffer-start")
-                env[AV] = Lin.sym("buffer-capacity")
-                return True
-            return False
-        affine.run(stmts_, env, on_call)
-        return events
+    def on_call(u, env, events, assumptions):
+        nm = callee_name(u)
+        if nm == "memcpy" and len(u.get("args", [])) == 3:
+            a = u["args"]
+            events.append(("memcpy", affine.ev2(a[0], env, assumptions), affine.ev2(a[1], env, assumptions), affine.ev2(a[2], env, assumptions),
+                           env.get(AV, Lin.sym(AV)), env.get(MP, Lin.sym(MP)), u))
+            return True
+        if nm == "update_buffer" and (u.get("callee") or {}).get("cls") == ENC:
+            n = affine.ev2(u["args"][0], env, assumptions)
+            events.append(("update", n, u))
+            env[MP] = env.get(MP, Lin.sym(MP)) + n
+            env[AV] = env.get(AV, Lin.sym(AV)) - n
+            return True
+        if nm == "flush_buffer" and (u.get("callee") or {}).get("cls") == ENC:
+            events.append(("flush", u))
+            env[MP] = Lin.sym("buffer-start")
+            env[AV] = Lin.sym("buffer-capacity")
+            return True
+        return False
 
     try:
-        i_lp = body.index(lp)
-        # ---- one round
-        env = {}
-        ev_round = interp(ir.stmts(lp["body"]), env)
-        A, P = Lin.sym(AV), Lin.sym(MP)
-        cps = [e for e in ev_round if e[0] == "memcpy"]
-        ups = [e for e in ev_round if e[0] == "update"]
-        fls = [e for e in ev_round if e[0] == "flush"]
-        names = [e[0] for e in ev_round]
-        why = []
-        src_e = None
-        if len(cps) != 1 or len(ups) != 1 or len(fls) != 1 or names != ["memcpy", "update", "flush"]:
-            why.append("a round performs %s; expected one memcpy, then update_buffer, then flush_buffer" % names)
+        # ---- one iteration, from the loop head
+        k = lp["k"]
+        lbody = ir.stmts(lp.get("body"))
+        inc = [lp["inc"]] if k == "For" and lp.get("inc") is not None else []
+        cont = [{"k": "Continue"}]
+        if k == "Do":
+            it = lbody + ([{"k": "If", "cond": lp["cond"], "then": {"k": "Block", "s": cont}, "else": {"k": "Break"}}] if lp.get("cond") is not None else cont)
+        elif lp.get("cond") is not None:
+            it = [{"k": "If", "cond": lp["cond"], "then": {"k": "Block", "s": lbody + inc + cont}, "else": {"k": "Break"}}]
         else:
-            src_e = cps[0][4]["args"][1]
-            src0 = affine.ev(src_e, {})
-            left0 = affine.ev(left_e, {})
-            if cps[0][1] != P:
-                why.append("memcpy writes to %r, not to the cursor m_p" % cps[0][1])
-            if cps[0][2] != src0:
-                why.append("memcpy reads from %r: the source was moved before this round's copy" % cps[0][2])
-            if cps[0][3] != A:
-                why.append("memcpy copies %r bytes; the free space at the start of the round is m_avail" % cps[0][3])
-            if ups[0][1] != A:
-                why.append("update_buffer(%r) does not match the %r bytes copied" % (ups[0][1], cps[0][3]))
-            if affine.ev(src_e, dict(env)) != src0 + A:
-                why.append("after a round the source is %r; it must have advanced by the bytes copied (m_avail at round start)" % affine.ev(src_e, dict(env)))
-            if affine.ev(left_e, dict(env)) != left0 - A:
-                why.append("after a round the remainder is %r; it must have shrunk by the bytes copied" % affine.ev(left_e, dict(env)))
-        run.ob("R06.5", "write_string:round", not why, f, lp["l"],
-               "each round copies m_avail bytes to the cursor, advances source and remainder by that amount, updates and flushes" if not why else
-               "; ".join(why))
-        # byte counters: any other local that changes in a round must grow by exactly the bytes copied
+            it = lbody + inc + cont
+        paths = affine.explore(it, {}, on_call)
+        A0, P0 = Lin.sym(AV), Lin.sym(MP)
+        src_nodes = [e_[6]["args"][1] for p_ in paths for e_ in p_[2] if e_[0] == "memcpy"]
+        tail_cp = [x for s_ in body[i_lp + 1:] for x in ir.walk(s_) if x.get("k") == "Call" and callee_name(x) == "memcpy"]
+        src_e = src_nodes[0] if src_nodes else (tail_cp[0]["args"][1] if tail_cp else None)
+        if src_e is None:
+            run.ob("R06.5", "write_string:shape", None, f, lp["l"], "no memcpy found")
+            run.floor("R06.5", 4, "write_string obligations")
+            return
+        S0, R0 = affine.ev2(src_e, {}, ()), affine.ev2(rem_e, {}, ())
         skip = set()
-        for e_ in (src_e, left_e):
-            if e_ is not None:
-                for x in ir.walk(e_):
-                    kx = affine.key_of(x)
-                    if kx:
-                        skip.add(kx)
-        counters = {}
-        declared = set("l:%s#%s" % (v.get("n"), v.get("id")) for n_ in ir.walk(lp["body"]) if n_.get("k") == "Decl" for v in n_.get("vars", []))
-        for key in sorted(ir.written_locals(lp["body"]) | set(k_ for k_ in env if k_.startswith("p:") and env[k_] != Lin.sym(k_))):
-            if key in skip or key in declared:
+        for e_ in (src_e, rem_e):
+            for x in ir.walk(e_):
+                kx = affine.key_of(x)
+                if kx:
+                    skip.add(kx)
+        declared = set("l:%s#%s" % (v.get("n"), v.get("id")) for n_ in ir.walk(lp) if n_.get("k") == "Decl" for v in n_.get("vars", []))
+        counters = sorted(x for x in (ir.written_locals(lp) | ir.written_locals({"k": "Block", "s": body[i_lp + 1:]})) if x not in skip and x not in declared)
+
+        def check_copy(evs, asm, why, entry_src):
+            """memcpy/update pairs of one path: to the cursor, from where the source stands, never more than is free."""
+            total = Lin(0)
+            src = entry_src
+            i = 0
+            while i < len(evs):
+                e_ = evs[i]
+                if e_[0] == "memcpy":
+                    _, dst, sv, n, av, cur, node = e_
+                    if dst != cur:
+                        why.append("memcpy writes to %r, the cursor stands at %r" % (dst, cur))
+                    if sv != src:
+                        why.append("memcpy reads from %r, the next byte to copy is at %r" % (sv, src))
+                    fits = affine.sign_of(av - n, asm)
+                    if fits not in ("==0", ">0", ">=0"):
+                        why.append("memcpy copies %r bytes while %r are free" % (n, av))
+                    nxt = evs[i + 1] if i + 1 < len(evs) else None
+                    if nxt is None or nxt[0] != "update" or nxt[1] != n:
+                        why.append("memcpy of %r bytes is not followed by update_buffer of the same amount" % n)
+                    total = total + n
+                    src = src + n
+                elif e_[0] == "update" and (i == 0 or evs[i - 1][0] != "memcpy"):
+                    why.append("update_buffer(%r) without a copy" % e_[1])
+                i += 1
+            return total
+
+        # ---- rounds that go on
+        why = []
+        cwhy = {}
+        n_cont = 0
+        for outcome, env, evs, asm in paths:
+            if outcome != "continue":
                 continue
-            counters[key] = env.get(key, Lin.sym(key))
-        for key, val in sorted(counters.items()):
-            okc = val == Lin.sym(key) + A
-            run.ob("R06.5", "write_string:round-counter", okc, f, lp["l"],
-                   "the round's byte count %s grows by the bytes copied" % key.split("#")[0][2:] if okc else
-                   "`%s` becomes %r in a round that copies m_avail bytes (m_avail is already 0 after update_buffer(m_avail)): the bytes of "
-                   "every round that fills the buffer are not counted, so the reported size is too small whenever the string crosses a "
-                   "buffer boundary" % (key.split("#")[0][2:], val))
-        # ---- tail
-        env_t = {}
-        ev_tail = interp(body[i_lp + 1:], env_t)
-        names_t = [e[0] for e in ev_tail if e[0] != "return"]
-        why = []
-        if names_t != ["memcpy", "update"]:
-            why.append("after the loop expected memcpy(m_p, src, remaining); update_buffer(remaining) (found %s)" % names_t)
-        else:
-            cp, up = [e for e in ev_tail if e[0] == "memcpy"][0], [e for e in ev_tail if e[0] == "update"][0]
-            left0 = affine.ev(left_e, {})
-            if cp[1] != P:
-                why.append("the final memcpy writes to %r, not to m_p" % cp[1])
-            if src_e is not None and cp[2] != affine.ev(src_e, {}):
-                why.append("the final memcpy reads from %r, not from where the loop left the source" % cp[2])
-            if cp[3] != left0:
-                why.append("the final memcpy copies %r bytes, the remainder is %r" % (cp[3], left0))
-            if up[1] != left0:
-                why.append("update_buffer(%r) after the final copy of %r bytes" % (up[1], left0))
+            n_cont += 1
+            total = check_copy(evs, asm, why, S0)
+            names = [e_[0] for e_ in evs]
+            if "memcpy" not in names:
+                why.append("a round can go on without copying anything")
+            if not names or names[-1] != "flush":
+                why.append("a round that goes on does not end with flush_buffer (sequence %s)" % names)
+            if affine.ev2(src_e, dict(env), asm) != S0 + total:
+                why.append("after a round the source stands at %r; it must have advanced by the %r bytes copied" % (affine.ev2(src_e, dict(env), asm), total))
+            if affine.ev2(rem_e, dict(env), asm) != R0 - total:
+                why.append("after a round the remainder is %r; it must have shrunk by the %r bytes copied" % (affine.ev2(rem_e, dict(env), asm), total))
             for key in counters:
-                if env_t.get(key, Lin.sym(key)) != Lin.sym(key) + left0:
-                    why.append("counter %s grows by %r in the tail, the tail copies %r" % (key.split("#")[0][2:], env_t.get(key, Lin.sym(key)) - Lin.sym(key), left0))
-        run.ob("R06.5", "write_string:tail", not why, f, f["line"],
-               "final copy of the remainder (<= m_avail by the loop exit condition) and matching update" if not why else "; ".join(why))
-        # ---- initial values
-        env_p = {}
-        interp(body[:i_lp], env_p)
-        size_p, str_p = "p:%s" % f["params"][1]["n"], "p:%s" % f["params"][0]["n"]
-        why = []
-        if affine.ev(left_e, dict(env_p)) != Lin.sym(size_p):
-            why.append("the remainder starts at %r, not at the size argument" % affine.ev(left_e, dict(env_p)))
-        if src_e is not None and affine.ev(src_e, dict(env_p)) != Lin.sym(str_p):
-            why.append("the source starts at %r, not at the string argument" % affine.ev(src_e, dict(env_p)))
+                if env.get(key, Lin.sym(key)) != Lin.sym(key) + total:
+                    cwhy[key] = "`%s` becomes %r in a round that copies %r bytes (after update_buffer(m_avail) m_avail is 0): the bytes of every " \
+                        "round that fills the buffer are not counted, so the reported size is too small whenever the string crosses a buffer " \
+                        "boundary" % (key.split("#")[0][2:], env.get(key, Lin.sym(key)), total)
+        if n_cont == 0:
+            why.append("no path goes round the loop")
+        run.ob("R06.5", "write_string:round", not why, f, lp["l"],
+               "a round copies to the cursor what fits, advances source and remainder by that amount, updates and flushes" if not why else
+               "; ".join(sorted(set(why))))
         for key in counters:
-            if env_p.get(key) != Lin(0):
-                why.append("counter %s does not start at 0" % key.split("#")[0][2:])
-        run.ob("R06.5", "write_string:init", not why, f, f["line"], "remaining starts at the size argument, the source at the string argument" if not why else "; ".join(why))
+            run.ob("R06.5", "write_string:round-counter", key not in cwhy, f, lp["l"],
+                   "the byte count %s grows by the bytes copied in a round" % key.split("#")[0][2:] if key not in cwhy else cwhy[key])
+        # ---- leaving the loop and running to the end
+        why = []
+        n_exit = 0
+        for outcome, env, evs, asm in paths:
+            if outcome not in ("break", "end"):
+                continue
+            for out2, env2, evs2, asm2 in affine.explore(body[i_lp + 1:], env, on_call, asm):
+                n_exit += 1
+                allv = list(evs) + list(evs2)
+                total = check_copy([e_ for e_ in allv if e_[0] != "return"], asm2, why, S0)
+                if total != R0:
+                    why.append("leaving the loop copies %r bytes in all, %r are left" % (total, R0))
+                for key in counters:
+                    if env2.get(key, Lin.sym(key)) != Lin.sym(key) + total:
+                        why.append("counter %s grows by %r on the way out, %r bytes are copied" % (
+                            key.split("#")[0][2:], env2.get(key, Lin.sym(key)) - Lin.sym(key), total))
+        if n_exit == 0:
+            why.append("no path leaves the loop")
+        run.ob("R06.5", "write_string:tail", not why, f, f["line"],
+               "on the way out exactly the remainder (which fits by the exit condition) is copied and accounted" if not why else "; ".join(sorted(set(why))))
+        # ---- initial values
+        why = []
+        for out0, env_p, evs0, asm0 in affine.explore(body[:i_lp] + ([lp["init"]] if k == "For" and lp.get("init") is not None else []), {}, on_call):
+            if affine.ev2(rem_e, dict(env_p), asm0) != Lin.sym(size_p):
+                why.append("the remainder starts at %r, not at the size argument" % affine.ev2(rem_e, dict(env_p), asm0))
+            if affine.ev2(src_e, dict(env_p), asm0) != Lin.sym(str_p):
+                why.append("the source starts at %r, not at the string argument" % affine.ev2(src_e, dict(env_p), asm0))
+            for key in counters:
+                if env_p.get(key) != Lin(0):
+                    why.append("counter %s does not start at 0" % key.split("#")[0][2:])
+            if evs0:
+                why.append("bytes are copied before the loop")
+        run.ob("R06.5", "write_string:init", not why, f, f["line"], "remaining starts at the size argument, the source at the string argument" if not why else "; ".join(sorted(set(why))))
     except affine.NotAffine as ex:
-        run.ob("R06.5", "write_string:shape", None, f, lp["l"], "the copy loop is not straight-line affine code (%s)" % ex)
+        run.ob("R06.5", "write_string:shape", None, f, lp["l"], "the copy loop is not affine code the analysis can follow (%s)" % ex)
     run.floor("R06.5", 4, "write_string obligations")
 
 
